@@ -297,6 +297,16 @@ pub fn eval<D: Dom>(c: &Case<D>, mode: Mode, o: &mut Out) -> Evaluated {
             );
         }
     }
+    // information only (matrices, C07): the certificates behind c07_matrix_accepting_states_exclusive_partial
+    if CERTS && mode == Mode::C07 && D::NAME == "mat" {
+        for (_, b) in builts.iter() {
+            o.case(
+                sexp::l(vec![sexp::a("cert"), sexp::a(D::NAME), sexp::a("U"), b.dump.clone(), sexp::list(&c.pats, D::pat_s), sexp::list(&b.present, |x| sexp::b(*x))]).to_string(),
+                "(slab 1 unamb 1)".to_string(),
+                b.n_states >= 3,
+            );
+        }
+    }
     o.count("domain", D::NAME);
     o.count("patterns", c.pats.len());
     o.count("heuristics_built", builts.len().min(40));
